@@ -1,10 +1,13 @@
 // ad-hoc probe (not used by any check)
-use qrlew::data_type::{self, DataType, Variant, value::{Value, Variant as _}};
+use qrlew::{relation::Relation, sql::{parse, relation::QueryWithRelations}};
 fn main() {
-    let v = Value::float(2.25);
-    let f = DataType::Float(data_type::Float::from_interval(-4.0, 2.25).union_interval(23.0, 23.0));
-    let u = DataType::Text(data_type::Text::empty()).super_union(&f).unwrap();
-    println!("{u} {:?} contains 2.25? {}", u, u.contains(&v));
-    println!("{:?}", u.maximal_superset().map(|m| format!("{:?}", m)));
-    println!("{:?}", v.as_data_type(&u.maximal_superset().unwrap()).map(|x| format!("{:?} in {}", x, u.contains(&x))).map_err(|e| e.to_string()));
+    let rels = qvh::s_hier::world();
+    for sql in std::env::args().skip(1) {
+        let q = parse(&sql).unwrap();
+        match std::panic::catch_unwind(std::panic::AssertUnwindSafe(|| Relation::try_from(QueryWithRelations::new(&q, &rels)))) {
+            Ok(Ok(r)) => println!("{sql}\n{}\n", r),
+            Ok(Err(e)) => println!("{sql}\nERR {e}\n"),
+            Err(_) => println!("{sql}\nPANIC\n"),
+        }
+    }
 }
